@@ -286,6 +286,31 @@ def generate(rng, tier, index):
             elif name == 'SetAttribute':
                 op.update({'new': gen.A('Sensitive', True)})
             steps.append({'actor': a, 'ver': list(vv), 'items': [op]})
+    if nact >= 2 and r.random() < 0.2:
+        # two owners whose objects carry the same value of a multi-valued
+        # attribute (group, name of an application, ...); one of them then
+        # changes that value on HIS object - the other's must stay as it is
+        a, b = r.sample(range(nact), 2)
+        attr = r.choice(['Object Group', 'Object Group',
+                         'Application Specific Information'])
+        val = 'shared-grp' if attr == 'Object Group' else ['ns0', 'shared']
+        new = 'renamed-grp' if attr == 'Object Group' else ['ns0', 'renamed']
+        for who in (a, b):
+            op = gen.gen_register(ctx, (1, 2), who, 'SymmetricKey',
+                                  want_mask=12)
+            op['attrs'] = [x_ for x_ in op['attrs'] if x_['n'] not in (
+                'Object Group', 'Application Specific Information',
+                'Operation Policy Name')] + [gen.A(attr, val, 0)]
+            steps.append({'actor': who, 'ver': [1, 2], 'items': [op]})
+        lab = steps[-1]['items'][0]['label']
+        if r.random() < 0.5:
+            steps.append({'actor': b, 'ver': [2, 0], 'items': [{
+                'op': 'ModifyAttribute', 'uid': '@' + lab,
+                'cur': gen.A(attr, val), 'new': gen.A(attr, new)}]})
+        else:
+            steps.append({'actor': b, 'ver': [1, 2], 'items': [{
+                'op': 'ModifyAttribute', 'uid': '@' + lab,
+                'attr': gen.A(attr, new, 0)}]})
     return {'server': server, 'actors': actors, 'policies': policies,
             'seed': r.randrange(1 << 30), 'steps': steps}
 
@@ -595,6 +620,22 @@ def execute(plan):
                                  op='Locate', role='direct', uid=u,
                                  actor=ai, identity=ident(ai),
                                  policy=None if o is None else o['policy'])
+            # whatever the request named: an object that is different
+            # afterwards was changed by this requester, who therefore needs
+            # a grant for SOME changing operation on it
+            for u in sorted(set(before) & set(after)):
+                if before[u] == after[u]:
+                    continue
+                o = before[u]
+                if not granted(o, ai, ['MODIFY_ATTRIBUTE', 'DELETE_ATTRIBUTE',
+                                       'SET_ATTRIBUTE', 'ACTIVATE', 'REVOKE',
+                                       'DESTROY']):
+                    flag('object-changed-without-any-grant',
+                         op=[x['op'] for x in st['items']], role=None,
+                         uid=u, actor=ai, identity=ident(ai),
+                         owner=o['owner'], policy=o['policy'],
+                         changed=sorted(k for k in o
+                                        if o[k] != after[u].get(k)))
             if all_failed and W.dump() != dump_before:
                 flag('failed-request-changed-store',
                      op=[o['op'] for o in st['items']], role=None)
